@@ -18,6 +18,10 @@ open MdIt.PipelineH
 #check @docH_total_of_inline
 #check @docH_total_of_docMemoSafeH
 #check @doc_totalH_flat_of_tables
+#check @MdIt.BlockH.parseBlocksH_placeholder_tables
+#check @MdIt.BlockH.parseBlocksH_inlNoRange
+#check @docH_tables_mapOK
+#check @doc_totalH_flat
 #check @parseDocH_cr
 #check @renderDocH_cr
 
@@ -37,5 +41,9 @@ open MdIt.PipelineH
 #print axioms docH_total_of_inline
 #print axioms docH_total_of_docMemoSafeH
 #print axioms doc_totalH_flat_of_tables
+#print axioms MdIt.BlockH.parseBlocksH_placeholder_tables
+#print axioms MdIt.BlockH.parseBlocksH_inlNoRange
+#print axioms docH_tables_mapOK
+#print axioms doc_totalH_flat
 #print axioms parseDocH_cr
 #print axioms renderDocH_cr
